@@ -9,6 +9,7 @@ from ..kinds import node_containing
 from ..model import AnalysisError, attr_chain, is_self_attr, norm, short, walk_local
 from ..pmodel import LEX_CONSUME, ParserModel
 from ..report import Ctx
+from .. import balanced
 from .. import linear
 
 LEVEL = "linear-use and delimiter-slice dataflow over the token collectors of parser.py"
@@ -285,14 +286,8 @@ def run(ctx: Ctx) -> None:
                msg=f"a custom token map {m!r} is used but the function still treats {sorted(ends)} as closers: a closer that has no opener in the map is matched against the wrong pending bracket (or raises)",
                node=call, mod=mod)
     check_lifo(ctx, "R14.5", pm)
-    # the stack discipline inside the function
-    cb = pm.fn("_consume_balanced_tokens")
-    txt = norm(cb)
-    pushes = [c for c in walk_local(cb) if isinstance(c, ast.Call) and isinstance(c.func, ast.Attribute) and c.func.attr == "append" and "stack" in norm(c.func.value)]
-    rets = [s for s in walk_local(cb) if isinstance(s, ast.Return)]
-    cfgb = pm.cfg("_consume_balanced_tokens")
-    okret = bool(rets) and all(_under_empty_stack(cfgb, r) for r in rets)
-    ctx.ob("R14.5", "parser:CxxParser._consume_balanced_tokens|returns only with an empty stack", okret, msg="the balanced consumer can return while brackets are still open", node=cb, mod=mod)
+    # the stack discipline inside the function: decided by interpretation over bracket scripts (sa/balanced.py)
+    balanced.obligations(ctx, "R14.5", pm, ("return", "fused"))
 
     # ---------------------------------------------------------------- R14.7
     # A source token that the parser consumed as a FLAG (token_if("ELLIPSIS") -> param_pack = True)
